@@ -84,7 +84,7 @@ func foreignTreeWith(key string, n, pos int) fixedtree.Tree {
 func TestC13(t *testing.T) {
 	r := vlib.Start(t, "C13", vlib.LevelExploration)
 	defer r.Finish()
-	r.SetRule("case = one SuffrageProof (block map, suffrage state, fixed-tree path) judged by IsValid(networkID) then Prove(previous); honest proofs are the ones the real isaacblock.Writer handed to the database for blocks written by Writer+LocalFSWriter (also after an encode/decode round trip); each forgery breaks exactly one named binding of such a proof (foreign tree, re-rooted path, sub-tree root, foreign map of the same height, map of another height, swapped state, tampered path node, wrong previous state, suffrage height not +1); distinct = (kind, world, block height, tree size, path length); non-trivial = every case (all carry a real signed block map)")
+	r.SetRule("case = one SuffrageProof (block map, suffrage state, fixed-tree path) judged by IsValid(networkID) then Prove(previous); honest proofs are the ones the real isaacblock.Writer handed to the database for blocks written by Writer+LocalFSWriter (also after an encode/decode round trip); each forgery breaks exactly one named binding of such a proof (foreign tree, re-rooted path, sub-tree root, foreign map of the same height, map of another height, swapped state, tampered path node, real proof material of any node of the block's tree (leaf, parent, ancestor, sibling, other) with one node in any pair position re-labelled to a forged state's hash, wrong previous state, suffrage height not +1); distinct = (kind, world, block height, tree size, path length); non-trivial = every case (all carry a real signed block map)")
 	r.Assume("a forgery counts as rejected when IsValid or Prove returns an error; a panic of Prove is reported separately")
 	r.Assume("honest proofs must be accepted for the forgeries' rejections to mean anything: an honest rejection makes the run inconclusive, it is not a violation (the statement is 'accepted only if')")
 
@@ -92,7 +92,7 @@ func TestC13(t *testing.T) {
 	nblocks := r.N(9, 14)
 
 	judge := func(pc pcase, p base.SuffrageProof, previous base.State, rig *blkrig.Rig) {
-		fp := fmt.Sprintf("%s/w%d/h%d/t%d/p%d", pc.Kind, pc.World, pc.Height, pc.TreeLen, pc.PathLen)
+		fp := fmt.Sprintf("%s/w%d/h%d/t%d/p%d/%s", pc.Kind, pc.World, pc.Height, pc.TreeLen, pc.PathLen, pc.Broken)
 		r.Case(fp)
 		r.Count("proofs_"+pc.Kind, 1)
 
@@ -335,6 +335,111 @@ func TestC13(t *testing.T) {
 
 					judge(mk("tampered-path-node", "one node of the real path carries another hash", true, tlen, path),
 						isaacblock.NewSuffrageProof(b.Map, b.SufState, fixedtree.NewProof(tn)), previous, rig)
+				}
+			}
+
+			// --- structurally different proofs for the claimed key: the real
+			// proof material of every node of the block's states tree (the
+			// suffrage leaf itself, its parent, ancestors, sibling, unrelated
+			// nodes), with ONE node re-labelled with the hash of a forged state
+			// (right heights, right previous) while keeping its node hash; the
+			// forged state is in no position of the states tree
+			{
+				forged := randomSufState(b.Height, base.Height(sh), prevhash, 1+rng.Intn(3))
+				fkey := forged.Hash().String()
+				leafkey := b.SufState.Hash().String()
+
+				tnodes := b.StatesTree.Nodes()
+				leafidx := -1
+
+				for i := range tnodes {
+					if tnodes[i].Key() == leafkey {
+						leafidx = i
+					}
+				}
+
+				rel := func(i int) string {
+					switch {
+					case i == leafidx:
+						return "self"
+					case leafidx > 0 && i == (leafidx-1)/2:
+						return "parent"
+					case leafidx > 0 && (i == leafidx+1 || i == leafidx-1) && (i-1)/2 == (leafidx-1)/2:
+						return "sibling"
+					}
+
+					for a := leafidx; a > 0; {
+						a = (a - 1) / 2
+						if a == i {
+							return "ancestor"
+						}
+					}
+
+					if leafidx >= 0 && (i-1)/2 == leafidx {
+						return "child"
+					}
+
+					return "other"
+				}
+
+				type cand struct {
+					owner, pos int
+					nodes      []fixedtree.Node
+				}
+
+				var cands []cand
+
+				for oi := range tnodes {
+					op, err := b.StatesTree.Proof(tnodes[oi].Key())
+					if err != nil {
+						continue
+					}
+
+					on := op.Nodes()
+					for pos := range on {
+						if on[pos] == nil || on[pos].IsEmpty() {
+							continue
+						}
+
+						cands = append(cands, cand{owner: oi, pos: pos, nodes: on})
+					}
+				}
+
+				// every candidate whose re-labelled node is the suffrage leaf;
+				// a PRNG sample of the others
+				maxother := r.N(40, 200)
+				rng.Shuffle(len(cands), func(i, j int) { cands[i], cands[j] = cands[j], cands[i] })
+
+				others := 0
+
+				for _, c := range cands {
+					isleaf := c.nodes[c.pos].Key() == leafkey
+					if !isleaf {
+						if others >= maxother {
+							continue
+						}
+
+						others++
+					}
+
+					fn := append([]fixedtree.Node{}, c.nodes...)
+					fn[c.pos] = fixedtree.NewBaseNode(fkey).SetHash(c.nodes[c.pos].Hash())
+					fp := fixedtree.NewProof(fn)
+
+					pair := c.pos / 2
+					if c.pos == len(fn)-1 {
+						pair = -1 // root position
+					}
+
+					target := "other-node"
+					if isleaf {
+						target = "suffrage-leaf"
+					}
+
+					kind := fmt.Sprintf("relabelled:%s-proof:%s:pair%d", rel(c.owner), target, pair)
+					judge(mk(kind, fmt.Sprintf("real proof material of tree node %d (%s of the suffrage leaf %d); node at position %d re-labelled with the hash of a forged state, node hash kept; the forged state is not in the states tree",
+						c.owner, rel(c.owner), leafidx, c.pos), true, tlen, fp),
+						isaacblock.NewSuffrageProof(b.Map, forged, fp), previous, rig)
 				}
 			}
 
